@@ -130,7 +130,7 @@ def mismatches(sc, obs, fin, recs):
 
 
 def run(ctx):
-    n = 120 if ctx.quick else 2500
+    n = 100 if ctx.quick else 2000
     import os
     if os.environ.get("SURF_DEV_N"):
         n = int(os.environ["SURF_DEV_N"])
@@ -170,34 +170,54 @@ def run(ctx):
             confirmed.append((k, i, bad2, recs2))
         else:
             ctx.cov["unconfirmed_mismatches"] = ctx.cov.get("unconfirmed_mismatches", 0) + 1
-    alt_ids = [(k, i, bad, recs2) for k, i, bad, recs2 in confirmed if involves_comm_speedup(scens[i])]
-    alt_obs, alt_fin = {}, {}
-    if alt_ids:
-        variants = []
-        for _, i, _, _ in alt_ids:
-            v = dict(scens[i])
-            v["capcomm"] = True
-            variants.append(v)
-        o2, f2, sk2 = S.run_timelines(ctx, variants, tag="alt")
-        for j, (_, i, _, _) in enumerate(alt_ids):
+    # variants of the reference that characterise the two recorded deviations (never the property itself)
+    VARIANTS = [("C22:bandwidth-increase:running-comm", {"capcomm": True},
+                 "a running communication does not follow a bandwidth increase"),
+                ("C22:latency-event:during-latency-phase", {"latwake": True},
+                 "a latency profile point inside the latency phase of a communication ends that phase at once"),
+                ("C22:bandwidth-increase+latency-event", {"capcomm": True, "latwake": True},
+                 "a running communication does not follow a bandwidth increase, and a latency profile point ends its latency phase")]
+    todo = []
+    for ci, (k, i, bad, recs2) in enumerate(confirmed):
+        sc = scens[i]
+        comm = any(a["kind"] == "comm" for a in sc["acts"])
+        for vi, (sig, flags, _) in enumerate(VARIANTS):
+            if not comm:
+                continue
+            if "capcomm" in flags and not any(l["bwprof"] for l in sc["links"]):
+                continue
+            if "latwake" in flags and not any(l["latprof"] for l in sc["links"]):
+                continue
+            v = dict(sc)
+            v.update(flags)
+            todo.append((ci, vi, v))
+    alt = {}
+    if todo:
+        o2, f2, sk2 = S.run_timelines(ctx, [v for _, _, v in todo], tag="alt")
+        for j, (ci, vi, _) in enumerate(todo):
             if f2[j] is not None:
-                alt_obs[i], alt_fin[i] = o2[j], f2[j]
+                alt[(ci, vi)] = (o2[j], f2[j])
     nknown = 0
-    for k, i, bad, recs2 in confirmed:
+    for ci, (k, i, bad, recs2) in enumerate(confirmed):
         sc = scens[i]
         files = {"scenario.json": json.dumps(S.scen_json(sc)), "scenario.txt": jobs[k][0],
                  "howto.txt": ".build/harness/surf_driver scenario.txt %s\n" % " ".join(jobs[k][1]),
                  "output.ndjson": "\n".join(json.dumps(x) for x in recs2) + "\n",
                  "reference.json": json.dumps({"obs": obs[i], "fin": fin[i]})}
-        if i in alt_fin:
-            bad_alt, _ = mismatches(sc, alt_obs[i], alt_fin[i], recs2)
-            if not bad_alt:
-                nknown += 1
-                ctx.violation("a running communication does not follow a bandwidth increase: " + bad[0], files=files,
-                              signature="C22:bandwidth-increase:running-comm", detail=json.dumps(brief(sc)) + "\n" + "\n".join(bad[:10]))
-                continue
+        matched = None
+        for vi, (sig, flags, text) in enumerate(VARIANTS):
+            if (ci, vi) in alt:
+                bad_alt, _ = mismatches(sc, alt[(ci, vi)][0], alt[(ci, vi)][1], recs2)
+                if not bad_alt:
+                    matched = (sig, text)
+                    break
+        if matched:
+            nknown += 1
+            ctx.violation(matched[1] + ": " + bad[0], files=files, signature=matched[0],
+                          detail=json.dumps(brief(sc)) + "\n" + "\n".join(bad[:10]))
+            continue
         ctx.violation("profile scenario: " + bad[0], files=files, signature="C22:%s" % vlib.canon_hash(S.scen_json(sc)),
-                      detail=json.dumps(brief(sc)) + "\n" + "\n".join(bad[:20]))
+                      detail=json.dumps(brief(sc)) + "\n" + " ".join(jobs[k][1]) + "\n" + "\n".join(bad[:20]))
     ctx.cov["known_finding_scenarios"] = nknown
     ctx.cov["rule"] = ("scenarios drawn from VERIF_SEED: 1-2 hosts and 1-2 links, each with random speed / state / bandwidth / latency "
                        "profiles (1-20 points on a 1/16 s grid, periodic with probability 0.6, sometimes a point at date 0 or two points "
